@@ -134,6 +134,13 @@ impl TypedProgram {
                     if let Literal::NumUnsigned(size, UnsignedNumType::Usize) = literal {
                         const_sizes.insert(identifier, *size as usize);
                     }
+                } else {
+                    // reported together with the missing constants, so that the error names every
+                    // constant that cannot be used (and nothing below relies on its value):
+                    errs.push(CompilerError::InvalidLiteralType(
+                        literal.clone(),
+                        ty.clone(),
+                    ));
                 }
             }
         }
@@ -145,17 +152,24 @@ impl TypedProgram {
         // Sort by the meta information of the const defs so we iterate them in the order that
         // they occur in the source code
         sorted_const_defs.sort_by_key(|(_name, const_def)| const_def.meta);
-        for (const_name, const_def) in sorted_const_defs {
-            if let Type::Unsigned(UnsignedNumType::Usize) = const_def.ty {
-                if let ConstExpr(ConstExprEnum::ExternalValue { party, identifier }, _) =
-                    &const_def.value
-                {
-                    let identifier = format!("{party}::{identifier}");
-                    const_sizes.insert(const_name.clone(), *const_sizes.get(&identifier).unwrap());
+        // Every numeric constant is evaluated in the order of its definition (a constant can only
+        // refer to constants defined before it), using the wrapping arithmetic of its own type:
+        for (const_name, const_def) in sorted_const_defs.iter() {
+            match &const_def.ty {
+                Type::Unsigned(ty) => {
+                    let bits = const_def.ty.size_in_bits_for_defs(self, &const_sizes);
+                    let n = resolve_const_expr_unsigned(&const_def.value, &consts_unsigned, bits);
+                    if let UnsignedNumType::Usize = ty {
+                        const_sizes.insert((*const_name).clone(), n as usize);
+                    }
+                    consts_unsigned.insert((*const_name).clone(), n);
                 }
-                let n = resolve_const_expr_unsigned(&const_def.value, &consts_unsigned);
-                const_sizes.insert(const_name.clone(), n as usize);
-                consts_unsigned.insert(const_name.clone(), n);
+                Type::Signed(_) => {
+                    let bits = const_def.ty.size_in_bits_for_defs(self, &const_sizes);
+                    let n = resolve_const_expr_signed(&const_def.value, &consts_signed, bits);
+                    consts_signed.insert((*const_name).clone(), n);
+                }
+                _ => {}
             }
         }
 
@@ -232,7 +246,7 @@ impl TypedProgram {
             cache_gates: opts.optimize_duplicate_gates,
         };
         let mut circuit = CircuitBuilder::new(input_gates, const_sizes.clone(), builder_opts);
-        for (const_name, const_def) in self.const_defs.iter() {
+        for (const_name, const_def) in sorted_const_defs {
             let ConstExpr(expr, _) = &const_def.value;
             match expr {
                 ConstExprEnum::True => env.let_in_current_scope(const_name.clone(), vec![1]),
@@ -274,8 +288,7 @@ impl TypedProgram {
                 | ConstExprEnum::Add(_, _)
                 | ConstExprEnum::Sub(_, _) => {
                     if let Type::Unsigned(_) = const_def.ty {
-                        let result =
-                            resolve_const_expr_unsigned(&const_def.value, &consts_unsigned);
+                        let result = *consts_unsigned.get(const_name).unwrap();
                         let mut bits = Vec::with_capacity(
                             const_def
                                 .ty
@@ -291,7 +304,7 @@ impl TypedProgram {
                         let bits = bits.into_iter().map(|b| b as usize).collect();
                         env.let_in_current_scope(const_name.clone(), bits);
                     } else {
-                        let result = resolve_const_expr_signed(&const_def.value, &consts_signed);
+                        let result = *consts_signed.get(const_name).unwrap();
                         let mut bits = Vec::with_capacity(
                             const_def
                                 .ty
@@ -317,43 +330,57 @@ impl TypedProgram {
 
 macro_rules! make_resolve_const_function {
     ($fn_ident:ident, $const_ty:ty) => {
+        /// Evaluates the const expr using wrapping arithmetic of the specified bit width.
         pub(crate) fn $fn_ident(
             ConstExpr(expr, _): &ConstExpr,
-            consts_unsigned: &HashMap<String, $const_ty>,
+            consts: &HashMap<String, $const_ty>,
+            bits: usize,
         ) -> $const_ty {
+            // truncates (and for signed types sign-extends) to the bit width of the constant's type
+            let wrap = |n: $const_ty| -> $const_ty {
+                let unused_bits = (<$const_ty>::BITS as usize).saturating_sub(bits) as u32;
+                if unused_bits == 0 || unused_bits >= <$const_ty>::BITS {
+                    n
+                } else {
+                    (n << unused_bits) >> unused_bits
+                }
+            };
             match expr {
                 ConstExprEnum::NumUnsigned(n, _) => *n as $const_ty,
-                ConstExprEnum::ExternalValue { party, identifier } => *consts_unsigned
-                    .get(&format!("{party}::{identifier}"))
-                    .unwrap(),
+                ConstExprEnum::NumSigned(n, _) => *n as $const_ty,
+                ConstExprEnum::ExternalValue { party, identifier } => {
+                    *consts.get(&format!("{party}::{identifier}")).unwrap()
+                }
                 ConstExprEnum::Max(args) => {
-                    let mut result = 0;
+                    let mut result = None;
                     for arg in args {
-                        result = max(result, $fn_ident(arg, consts_unsigned));
+                        let arg = $fn_ident(arg, consts, bits);
+                        result = Some(result.map_or(arg, |result| max(result, arg)));
                     }
-                    result
+                    result.unwrap_or(<$const_ty>::MIN)
                 }
                 ConstExprEnum::Min(args) => {
-                    let mut result = <$const_ty>::MAX;
+                    let mut result = None;
                     for arg in args {
-                        result = min(result, $fn_ident(arg, consts_unsigned));
+                        let arg = $fn_ident(arg, consts, bits);
+                        result = Some(result.map_or(arg, |result| min(result, arg)));
                     }
-                    result
+                    result.unwrap_or(<$const_ty>::MAX)
                 }
                 ConstExprEnum::Add(lhs, rhs) => {
                     // TODO it is probably more sensible to return an error instead of wrapping.
                     // This would require changing this and calling functions to be fallible
                     // issue #227 (robinhundt 07.08.25)
-                    $fn_ident(lhs, consts_unsigned).wrapping_add($fn_ident(rhs, consts_unsigned))
+                    wrap($fn_ident(lhs, consts, bits).wrapping_add($fn_ident(rhs, consts, bits)))
                 }
                 ConstExprEnum::Sub(lhs, rhs) => {
-                    $fn_ident(lhs, consts_unsigned).wrapping_sub($fn_ident(rhs, consts_unsigned))
+                    wrap($fn_ident(lhs, consts, bits).wrapping_sub($fn_ident(rhs, consts, bits)))
                 }
-                ConstExprEnum::ConstExprIdent(ident) => *consts_unsigned
+                ConstExprEnum::ConstExprIdent(ident) => *consts
                     .get(ident)
                     .expect("Identifier existence checked during type cheking"),
-                ConstExprEnum::True | ConstExprEnum::False | ConstExprEnum::NumSigned(_, _) => {
-                    panic!("Not a signed const expr: {expr:?}")
+                ConstExprEnum::True | ConstExprEnum::False => {
+                    panic!("Not a number const expr: {expr:?}")
                 }
             }
         }
@@ -1471,7 +1498,7 @@ impl Type {
             ),
             Type::ArrayConstExpr(elem_ty, size) => (
                 elem_ty.size_in_bits_for_defs(prg, const_sizes),
-                resolve_const_expr_usize(size, const_sizes),
+                resolve_const_expr_usize(size, const_sizes, USIZE_BITS),
             ),
             _ => return None,
         })
@@ -1497,7 +1524,7 @@ impl Type {
             }
             Type::ArrayConstExpr(elem, size_expr) => {
                 elem.size_in_bits_for_defs(prg, const_sizes)
-                    * resolve_const_expr_usize(size_expr, const_sizes)
+                    * resolve_const_expr_usize(size_expr, const_sizes, USIZE_BITS)
             }
             Type::Tuple(values) => {
                 let mut size = 0;
